@@ -69,6 +69,14 @@ fn perturb(v: &Value, top: bool, odd: bool) -> Value {
     }
 }
 
+fn innermost_re(v: &Value) -> &Value {
+    let mut x = v;
+    while let Some(r) = x.get("re") {
+        x = r;
+    }
+    x
+}
+
 fn zeros(r: usize, c: usize) -> Value {
     json!({"p": true, "m": (0..r).map(|_| (0..c).map(|_| json!([0, 1])).collect::<Vec<_>>()).collect::<Vec<_>>(), "dims": [r, c]})
 }
@@ -216,7 +224,8 @@ impl<'a> TypeFn for Run<'a> {
                 };
                 let agree = match self.mode {
                     Mode::TwoRun => {
-                        if newval.is_some() { observed.get("re") == obs2.get("re") } else { observed == obs2 }
+                        // (nested types: the innermost real part -- the derivative parts of the inner number were changed too)
+                        if newval.is_some() { innermost_re(&observed) == innermost_re(&obs2) } else { observed == obs2 }
                     }
                     _ => ev.op == "load" || compare(&observed, &obs2) != Cmp::Differ,
                 };
